@@ -11,7 +11,7 @@ TabU9 == <<
   E("A", {},    1, "n", 0, FALSE, 0, 0),    \* 1
   E("A", {},    12, "h", 2, FALSE, 0, 0),   \* 2  expires for the block at height 2; pays the 10x tier
   E("B", {},    1, "t", 1, FALSE, 0, 0),    \* 3  expires once the header time passes tick 1
-  E("A", {"B"}, 3, "n", 0, FALSE, 0, 2),    \* 4  group: head A, member B
+  E("A", {"B"}, 3, "h", 3, FALSE, 0, 2),    \* 4  group: head A, member B; a member expires for the block at height 3
   E("B", {},    11, "n", 0, FALSE, 0, 0),   \* 5  pays the 10x tier
   E("X", {},    1, "n", 0, TRUE,  0, 0),    \* 6  eth nonce 0
   E("X", {},    10, "n", 0, TRUE,  1, 0),   \* 7  eth nonce 1
